@@ -520,9 +520,11 @@ func (o *oracles) checkToldEqualsCache(rep reporter, ctx string) {
 					sig = "told-equals-cache after-rejected-reconfigure-whose-revert-failed"
 				} else if strings.HasPrefix(ctx, "failed-") {
 					sig = "told-equals-cache after-failed-request"
-				} else if ctx == "restart" && (f == "cpus" || f == "shares") && o.cpuOptedOut(y) {
+				} else if (ctx == "restart" || y.restarts > 0) && (f == "cpus" || f == "shares") && o.cpuOptedOut(y) {
+					// F7: persisted values of a container nothing pins any more;
+					// they stay until something else rewrites the field
 					sig = "told-equals-cache restart stale-persisted-resources-with-cpu-pinning-off"
-				} else if ctx == "restart" && f == "mems" && o.memOptedOut(y) {
+				} else if (ctx == "restart" || y.restarts > 0) && f == "mems" && (o.memOptedOut(y) || o.balloonsPreserveRule(y)) {
 					sig = "told-equals-cache restart stale-persisted-resources-with-memory-pinning-off"
 				}
 				rep("told-equals-cache", sig, "after %s: container %s %s: runtime has been told %q but the cache records %q (told view: %s)", ctx, y.spec.ID, f, tf[f], cf[f], y.t)
